@@ -114,6 +114,9 @@ def lab_spec(draw, name, *, kind=None, max_rows=8, max_cols=6, regime="roomy", g
     spec = {"kind": kind, "name": name, "cols": cols, "min": float(vmin), "max": float(vmax)}
     if dt in (0, 1):
         spec["init_dtype"] = "int64" if dt == 0 else "float32"
+    elif dt in (2, 3):
+        # the labware that is used is a deep copy / an unpickled copy of the constructed one (which stays alive)
+        spec["clone"] = "deepcopy" if dt == 2 else "pickle"
     if pos is not None:
         spec["pos"] = list(pos)
     naming = draw(st.sampled_from(["default", "default", "explicit", "partial", "shared"])) if allow_names else "default"
@@ -157,7 +160,7 @@ def lab_spec(draw, name, *, kind=None, max_rows=8, max_cols=6, regime="roomy", g
 
 def lab_specs(n_min=1, n_max=3, **kw):
     """1..3 labware with pairwise distinct names and distinct worktable positions."""
-    names = ["Alpha", "Beta plate ", " Gamma_3"]
+    names = ["Alpha 70%", "Beta plate ", " Gamma_3"]
 
     @st.composite
     def _labs(draw):
@@ -178,6 +181,25 @@ def _init_array(spec, values):
         if np.array_equal(arr.astype(float), np.array(values, dtype=float)):
             return arr
     return np.array(values, dtype=float)
+
+
+def clone(obj, how):
+    """A copy of a library object the way a user script gets one: copy.deepcopy or a pickle round trip."""
+    import copy
+    import pickle
+
+    return copy.deepcopy(obj) if how == "deepcopy" else pickle.loads(pickle.dumps(obj))
+
+
+def evo_class(key):
+    """EvoWorklist, or (every fourth key) its deprecated alias class robotools.Worklist, which forwards all arguments."""
+    import robotools
+
+    return robotools.Worklist if key % 4 == 0 else robotools.EvoWorklist
+
+
+def snapshot(lw):
+    return (lw.volumes.tobytes(), {k: a.tobytes() for k, a in lw.composition.items()}, [(a, b.tobytes()) for a, b in lw.history])
 
 
 def build(spec):
